@@ -342,6 +342,9 @@ impl Check for C12 {
     fn level(&self) -> &'static str {
         "fault_enumeration"
     }
+    fn isolated(&self) -> bool {
+        true
+    }
     fn rule(&self) -> String {
         "closed images (cleanly closed, or left recovery-required by a process that stopped) of short generated histories with 1-4 tables incl. multimaps with subtrees, persistent savepoints, pending-free entries; alterations per image: XOR {01,80,ff} of header bytes (every 7th byte in quick, all 320 in thorough), all 8 god-byte values, truncation by a page and a region, extension by a page, and sampled: single-byte XOR inside the checksummed prefix of a reachable page (positions classified by the independent decoder), a byte in page slack, zeroed/randomised runs inside the checksummed prefix, swaps of two reachable pages, of a reachable and a free page, a byte of a free page. Oracle per alteration: open error -> reported; check_integrity error -> reported; panic -> counted as reported abnormally; Ok(false) -> the contents (all tables and persistent savepoint ids, read completely, any error or panic counts) must equal exactly one commit point of the history and a second check_integrity must return Ok(true); Ok(true) -> the contents must equal exactly one commit point, read without error. The unaltered image must be certified and serve the last commit point. Non-trivial: alteration inside a checksummed prefix, a slot or a header field (not slack, not a free page); distinct by (tape, alteration).".into()
     }
